@@ -5,6 +5,7 @@ FS = "frequenz.sdk.timeseries.formula_engine._formula_steps"
 RS = "frequenz.sdk.timeseries._resampling"
 BPM = "frequenz.sdk.timeseries.battery_pool._metric_calculator"
 PVM = "frequenz.sdk.microgrid._power_distributing._component_managers._pv_inverter_manager._pv_inverter_manager:PVManager"
+ALGC = "frequenz.sdk.microgrid._power_distributing._distribution_algorithm._battery_distribution_algorithm:BatteryDistributionAlgorithm"
 RBUF = "frequenz.sdk.timeseries._ringbuffer.buffer:OrderedRingBuffer"
 FEV = "frequenz.sdk.timeseries.formula_engine._formula_evaluator"
 FENG = "frequenz.sdk.timeseries.formula_engine._formula_engine"
@@ -333,5 +334,39 @@ PROPS = {
         assumptions=[EXTRACTION, "bounded: expression shapes and input lattice as stated in coverage.rule",
                      "a deductive proof would need a grammar-level invariant relating the operator stack to a parse forest plus "
                      "re-association over the reals; not attempted (DESIGN 3, C05)"],
+    ),
+    "C01": dict(
+        modules=["pd_distribution"],
+        contracts=[f"{ALGC}._greedy_distribute_remaining_power", f"{ALGC}._distribute_multi_inverter_pairs",
+                   f"{ALGC}._inclusion_exclusion_bounds", f"{ALGC}._distribute_consume_power",
+                   f"{ALGC}._distribute_supply_power", f"{ALGC}.distribute_power"],
+        lemmas=[],
+        bounded=[dict(kind="native_script", name="distribute_power: conservation, signs, remainder (C01 clauses)",
+                      module="native.explore_distribution")],
+        level="other",
+        explanation="PROVED (deductive): the helpers around the main allocation - greedy top-up conserves power and respects the "
+                    "caps, the split over a set's inverters never hands out more than the set got and keeps every set-point "
+                    "in that inverter's bounds (every iteration order of the inverter set), per-direction bounds are the "
+                    "documented magnitudes, zero requests give all-zero results, and both directions call the main allocation "
+                    "with a positive magnitude. BOUNDED ONLY: the main allocation loop (_distribute_power) and the end-to-end "
+                    "conservation identity, by seeded random consistent configurations; four genuine defects are recorded as "
+                    "known findings (not small repairs).",
+        assumptions=[REALS, EXTRACTION,
+                     "structural bound for the proved helpers: two battery groups (1 and 2 inverters)",
+                     "_distribute_power's contract is ASSUMED at its call sites (only its precondition is checked there)"],
+    ),
+    "C02": dict(
+        modules=["pd_distribution"],
+        contracts=[f"{ALGC}._distribute_multi_inverter_pairs", f"{ALGC}._inclusion_exclusion_bounds",
+                   f"{ALGC}._greedy_distribute_remaining_power"],
+        lemmas=[],
+        bounded=[dict(kind="native_script", name="distribute_power: per-inverter and per-group bounds, no-headroom groups (C02 clauses)",
+                      module="native.explore_distribution")],
+        level="other",
+        explanation="PROVED (deductive): every set-point produced by the split over a set's inverters is zero or within that "
+                    "inverter's [exclusion, inclusion] magnitudes; inverter inclusion bounds are clipped by the battery's; the "
+                    "greedy top-up never exceeds a set's inclusion bound. BOUNDED ONLY: group totals vs battery bounds and "
+                    "'no SoC headroom => zero' on the main allocation (known findings C02-C, C02-D, C01-B).",
+        assumptions=[REALS, EXTRACTION, "structural bound for the proved helpers: two battery groups (1 and 2 inverters)"],
     ),
 }
